@@ -26,7 +26,7 @@ Section FixedLibIncl.
   Hypothesis Hnew : f_new (c_filter cfg) = true.
   Hypothesis Hundo : f_undo (c_filter cfg) = true.
 
-  Hypothesis U_id : forall b, In b U -> bid b <> 0 /\ bparent b <> 0 /\ bid b <> bparent b.
+  Hypothesis U_id : forall b, In b U -> bid b <> 0 /\ bid b <> bparent b.
   Hypothesis U_uniq : forall x y, In x U -> In y U -> bid x = bid y -> x = y.
   Hypothesis U_up : forall x y, In x U -> In y U -> bparent x = bid y -> bnum y < bnum x.
   Hypothesis L_id : ri r0 <> 0.
@@ -95,7 +95,7 @@ Section FixedLibIncl.
           else process_tail cfg s1 b undos redos junc longest None
       end.
   Proof.
-    intros Hl Hb Hf Hd Hini Hsw. destruct (U_id b Hb) as (H1 & H2 & H3).
+    intros Hl Hb Hf Hd Hini Hsw. destruct (U_id b Hb) as (H1 & H3).
     unfold fk_step. destruct (N.eqb_spec (bid b) (bparent b)); [contradiction|].
     unfold dropped in Hd. unfold initial in Hini. rewrite Hd, Hini.
     unfold sw_of in Hsw. rewrite Hsw.
@@ -108,9 +108,10 @@ Section FixedLibIncl.
 
   Lemma fk_step_oldG s b e : in_U U (store (db s)) -> In b U -> find (bid b) (store (db s)) = Some e ->
     wf_store (store (db s)) -> initial s b = false ->
+    (bparent b = 0 -> esent e = false) -> ri (libref (db s)) <> 0 ->
     fk_step cfg s b = (s, [], ROk).
   Proof.
-    intros HU Hb Hf Hwf Hini. destruct (U_id b Hb) as (H1 & H2 & H3).
+    intros HU Hb Hf Hwf Hini Hroot Hlz. destruct (U_id b Hb) as (H1 & H3).
     unfold fk_step. destruct (N.eqb_spec (bid b) (bparent b)); [contradiction|].
     destruct ((bnum b <? rn (libref (db s))) && match last_sent s with Some _ => true | None => false end); [reflexivity|].
     unfold initial in Hini. rewrite Hini.
@@ -120,7 +121,15 @@ Section FixedLibIncl.
     { destruct (f_undo (c_filter cfg) && triggers cfg s b); [|eauto].
       destruct (last_sent s) as [ls|]; [apply scss_total; exact Hwf | eauto]. }
     destruct Hsw as (u & r & j & ->).
-    rewrite (add_link_old U U_id U_uniq _ _ _ HU Hb Hf). reflexivity.
+    destruct (N.eq_dec (bparent b) 0) as [E0|E0].
+    - (* a stored root is stored again, unchanged; its longest chain is empty *)
+      rewrite (add_link_root U U_id U_uniq _ _ _ (ws_nodup _ Hwf) HU Hb Hf E0 (Hroot E0)).
+      rewrite (has_lib_nz _ Hlz).
+      assert (Hs : with_db s (db s) = s) by (destruct s; reflexivity). rewrite Hs.
+      pose proof (stored_is_self U U_uniq _ _ _ HU Hb Hf) as Eb.
+      destruct (rs_root (db s) first (bid b) (bnum b) e Hwf Hlz Hf) as [rr Hrs]; [rewrite Eb; exact E0|].
+      unfold reversible_segment. cbn [bref ri rn]. rewrite Hrs. rewrite orb_true_r. reflexivity.
+    - rewrite (add_link_old U U_id U_uniq _ _ _ HU Hb Hf E0). reflexivity.
   Qed.
 
   Lemma fk_step_initialG s b : In b U -> find (bid b) (store (db s)) = None -> dropped s b = false -> initial s b = true ->
@@ -128,7 +137,7 @@ Section FixedLibIncl.
       let '(s', evs, ok) := process_initial_inclusive cfg b (with_db s (new_db (db s) b)) in
       (s', evs, if ok then ROk else RHandlerErr).
   Proof.
-    intros Hb Hf Hd Hini. destruct (U_id b Hb) as (H1 & H2 & H3).
+    intros Hb Hf Hd Hini. destruct (U_id b Hb) as (H1 & H3).
     unfold fk_step. destruct (N.eqb_spec (bid b) (bparent b)); [contradiction|].
     unfold dropped in Hd. unfold initial in Hini. rewrite Hd, Hini.
     rewrite (add_link_new U U_id _ _ Hb Hf). reflexivity.
@@ -305,7 +314,9 @@ Section FixedLibIncl.
         all: try (rewrite Hdb; cbn [new_db store]; apply keys_snoc).
         all: try (intros _; rewrite Hls2; discriminate). }
     destruct (find (bid b) (store (db s))) as [e|] eqn:Hf.
-    { exists s, [], S. rewrite (fk_step_oldG s b e HU Hb Hf Hwf Hini).
+    { exists s, [], S.
+      assert (Hlz : ri (libref (db s)) <> 0) by (rewrite (proj1 Hl); exact L_id).
+      rewrite (fk_step_oldG s b e HU Hb Hf Hwf Hini (stored_root_unsent U r0 U_uniq L_id _ b e HU Hb Hf Hwf Hlc) Hlz).
       assert (In (bid b) (keys (store (db s)))).
       { destruct (in_dec N.eq_dec (bid b) (keys (store (db s)))) as [i|n]; [exact i|]. apply find_none in n. congruence. }
       split; [reflexivity|]. split; [reflexivity|]. split; [assumption|]. apply extras_same; auto. }
@@ -365,7 +376,7 @@ Section FixedLibIncl.
         * rewrite app_nil_r. exact HS.
         * exists s3, evs, (rev (map eb (pP ++ [en])) ++ base). split; [exact Hrun|]. split; [exact Happ|]. split; [exact HI3|].
           eapply Hfin3; eassumption.
-      + destruct (scss_link (db s) (ri r0) (bid hd) (bparent b) pH pP Hwf Hneq HcH HcP0) as (C & R & Uh & j & HP & HH & Hsc).
+      + destruct (scss_link (db s) (ri r0) (bid hd) (bparent b) pH pP Hwf L_id Hneq HcH HcP0) as (C & R & Uh & j & HP & HH & Hsc).
         { intros f t e0 Hu He0. exact (tail_disjoint_w U r0 cfg U_id U_up L_id L_num L_up (db s) pP (bparent b) HU Hnd HcP0 f t e0 Hu He0). }
         rewrite Hsc in Hsw. injection Hsw as <- <- <-.
         destruct (trigger_finishG s1 S b pP C R Uh j base HI1 Hb Hc HP) as (s3 & evs & Hrun & Happ & HI3 & Hk3).
